@@ -119,7 +119,7 @@ def main(argv=None):
         if a.list:
             for u in units: print(u[0])
             return 0
-        timeout_s = getattr(mod, 'UNIT_TIMEOUT', {}).get(tier, 600 if tier == 'quick' else 3600)
+        timeout_s = getattr(mod, 'UNIT_TIMEOUT', {}).get(tier, 1800 if tier == 'quick' else 5400)
         results = run_units(modname, units, timeout_s)
         return report(pid, tier, seed, mod, units, results, t0, write=not a.no_evidence and not a.only)
     finally:
@@ -182,7 +182,7 @@ def report(pid, tier, seed, mod, units, results, t0, write=True):
             # strict on the sources the obligations were registered for; after a change of a function under contract the set of paths (and hence
             # of obligation names) may legitimately differ: the missing ones are then undecided (printed), not an engine error
             reg_h = json.load(open(base_p)).get('_hashes', {}).get(pid, {})
-            changed = sorted(f['ref'] for f in functions.values() if f['ref'] in reg_h and reg_h[f['ref']] != f.get('sha256_16')) + sorted(r_ for r_ in reg_h if r_ not in {f['ref'] for f in functions.values()})
+            changed = sorted(f['ref'] for f in functions.values() if f['ref'] in reg_h and reg_h[f['ref']] != f.get('sha256_16'))
             if reg_h and changed:
                 for n in missing[:20]:
                     opens.append({'name': n, 'status': 'open', 'backend': 'registered-set', 'detail': 'registered obligation not generated after a source change of %s' % ', '.join(changed[:3])})
